@@ -4,7 +4,7 @@ Line protocol for C25 (one gate + one unit-level nonce cache per case):
 
   cfg <mode> <origin> <skew> <cap> <nocache 0|1> <inner nil|ok|fail> <kid>:<secret>...
         ProofAuthenticate(cfg, inner)            -> ok | err:config
-  req <now_ns> <hdr>*
+  req <now_ns>[,<later_ns>] <hdr>*
         the returned AuthenticateFunc on a request carrying these VGI-Proxy-Proof values
                                                  -> pass calls=<n> | refuse <reason> <detail> calls=0
   cache <ttl_ns> <cap>     newNonceCache         -> ok
@@ -39,6 +39,16 @@ def parseBool (w : String) : Option Bool :=
 def parseInner (w : String) : Option Bool :=
   if w = "nil" then some false else if w = "ok" ∨ w = "fail" then some true else none
 
+/-- `t1` or `t1,t2`: `t2` is what a second clock reading inside the same request would return;
+the modelled code reads the clock once, so only `t1` is used (both must parse). -/
+def parseNow (w : String) : Option Nat :=
+  match w.splitOn "," with
+  | [a] => a.toNat?
+  | [a, b] => match a.toNat?, b.toNat? with
+    | some x, some _ => some x
+    | _, _ => none
+  | _ => none
+
 def showDecision (d : Decision) : String :=
   if d.pass then s!"pass calls={d.innerCalls}"
   else s!"refuse {hexArg (bytesOfString d.reason)} {hexArg (bytesOfString d.detail)} calls={d.innerCalls}"
@@ -46,15 +56,15 @@ def showDecision (d : Decision) : String :=
 def step (st : St) (ws : List String) : St × String :=
   match ws with
   | "cfg" :: mode :: origin :: skew :: cap :: nocache :: inner :: secrets =>
-    match parseHexArg origin, skew.toInt?, cap.toInt?, parseBool nocache, parseInner inner,
-          secrets.mapM parseSecret with
-    | some o, some sk, some cp, some nc, some inn, some secs =>
-      match mkGate mode o secs sk cp nc inn with
+    match parseHexArg mode, parseHexArg origin, skew.toInt?, cap.toInt?, parseBool nocache,
+          parseInner inner, secrets.mapM parseSecret with
+    | some md, some o, some sk, some cp, some nc, some inn, some secs =>
+      match mkGate md o secs sk cp nc inn with
       | some g => ({ st with gate := some g }, "ok")
       | none => ({ st with gate := none }, "err:config")
-    | _, _, _, _, _, _ => (st, "bad-op")
+    | _, _, _, _, _, _, _ => (st, "bad-op")
   | "req" :: now :: hdrs =>
-    match now.toNat?, hdrs.mapM parseHexArg with
+    match parseNow now, hdrs.mapM parseHexArg with
     | some t, some hs =>
       match st.gate with
       | none => (st, "err:no-gate")
